@@ -289,6 +289,7 @@ func init() {
 func init() {
 	// sharing decided after round-2 seeds that were caught, but not under the property they were written for
 	prop("C01", "C08-R3")       // a log stream broken at a buffer wrap loses every later committed transaction (seed C01/d)
+	prop("C09", "C08-R3")       // a record broken at a buffer wrap hides the graceful-shutdown record: the next clean reopen runs undo (seed C09/e)
 	prop("C02", "C20-R3")       // the log is truncated at every launch: a stale GracefulShutdown record would switch Undo off (seed C02/d)
 	prop("C02", "C01-R8")       // same
 	prop("C03", "C13-R8/heap")  // what rollback restored must reach the disk (seed C03/d)
